@@ -28,12 +28,22 @@ from filtlib import build_own_theories
 SHAPES = {
     "expr": ["ShNode"], "exprlist": ["ShList 0", "ShList 1", "ShList 2", "ShList 3"], "stmt": ["ShNode"],
     "stmtlist": ["ShList 0", "ShList 1", "ShList 2"], "results-nil": ["ShTypedNil"], "results": ["ShNode"],
-    "params": ["ShList 2"], "params-unnamed": ["ShList 2"], "type": ["ShNode"], "names": ["ShList 1"], "sinkctx": ["ShNode"],
+    "params": ["ShList 2"], "params-unnamed": ["ShList 2"], "fields-head": ["ShList 2"], "fields-tail": ["ShList 2"], "fields-all": ["ShNode"], "type": ["ShNode"], "names": ["ShList 1"], "sinkctx": ["ShNode"],
     # comment rules: every capture (also a named group that matched nothing) is a non-nil *ast.Comment
     "comment": ["ShNode"], "comment-empty": ["ShNode"], "comment-nogroup": ["ShNode"], "comment-block": ["ShNode"], "comment-trailing": ["ShNode"],
     "comment-angle": ["ShNode"], "comment-angle-empty": ["ShNode"], "comment-nested": ["ShNode"], "comment-unnamed+named": ["ShNode"],
     "comment-flags": ["ShNode"], "comment-alternation": ["ShNode"], "comment-angle-alternation": ["ShNode"], "sinkctx-str": ["ShNode"],
 }
+# what kind of node the `$x` capture of a shape is for go/printer (the text of a capture that cannot be sliced out of the
+# file is printed): printable (expression, statement, declaration, spec), a comment, a field list, a gogrep node list of
+# printable nodes resp. of fields
+CLASSES = {
+    "expr": ["NcPrintable"], "exprlist": ["NcSlice false"], "stmt": ["NcPrintable"], "stmtlist": ["NcSlice false"],
+    "results-nil": ["NcFieldList"], "results": ["NcFieldList"], "params": ["NcSlice true"], "params-unnamed": ["NcFieldList"],
+    "fields-head": ["NcSlice true"], "fields-tail": ["NcSlice true"], "fields-all": ["NcFieldList"],
+    "type": ["NcPrintable"], "names": ["NcSlice false"], "sinkctx": ["NcPrintable"], "sinkctx-str": ["NcPrintable"],
+}
+READABLE = {"": ["true"], "mem": ["false"], "stale": ["true", "false"]}
 # (the two-variable shapes `two:*` -- one capture absent, the other present -- take part in the sweep only: the Coq model's
 #  closure_run speaks about one capture at a time)
 
@@ -91,6 +101,9 @@ def run(c):
             c.count()
             inp = {"pattern": r.get("pattern"), "where": r.get("where"), "extra": r.get("extra", ""), "report": "$x|$$ ($$ only for the sinkctx shape)", "suggest": "$x",
                    "TruncateLen": r["trunc"], "GoVersion": r["gover"], "state_reused": r["reused"], "capture_shape": r["shape"]}
+            if r.get("file"):
+                inp["file"] = {"mem": "the analysed file exists in memory only (nothing at the path the FileSet names)",
+                               "stale": "the file on disk is an older, shorter version of the analysed source (cut inside the probe sites)"}[r["file"]]
             if r.get("site"):
                 inp["site"] = r["site"]
                 if r["shape"] == "deep":
@@ -113,7 +126,7 @@ def run(c):
                 fid = None
                 c.fail("oracle", "malformed report: " + b["what"], input=inp, observed=b, expected="non-nil node inside the file, group set", finding=fid)
             if r["k"] == "run" and r.get("ctor"):
-                key = (r["ctor"].split("/")[0], r["shape"])
+                key = (r["ctor"].split("/")[0], r["shape"], r.get("file", ""))
                 observed[key] = observed.get(key, False) or bool(r.get("panic"))
         c.coverage["sweep_runs_%d" % state["n"]] = len(runs)
         if not gen_ok:
@@ -124,15 +137,17 @@ def run(c):
                "Import ListNotations. Local Open Scope string_scope.",
                "Definition tfs : list tfacts := [{| tf_untyped := false; tf_obj_nil := false |}; {| tf_untyped := true; tf_obj_nil := true |}].",
                "Fixpoint starts (p s : string) : bool := match p, s with EmptyString, _ => true | String a p', String b s' => Ascii.eqb a b && starts p' s' | _, _ => false end.",
-               "Definition crashes (ctor : string) (shapes : list cshape) : bool :=",
+               "Definition crashes (ctor : string) (shapes : list cshape) (classes : list nclass) (readable : list bool) : bool :=",
                "  existsb (fun e => (String.eqb (fst e) ctor || starts (ctor ++ \"#\") (fst e)) &&",
-               "    existsb (fun s => existsb (fun tf => negb (is_ok (closure_run (snd e) gen_nodetext_guarded s tf))) tfs) shapes) gen_access.",
+               "    existsb (fun s => existsb (fun tf => existsb (fun c => existsb (fun rd =>",
+               "      negb (is_ok (closure_run_on (snd e) gen_nodetext_guarded gen_text_print_handled gen_text_print_recursive rd s c tf))) readable) classes) tfs) shapes) gen_access.",
                "Definition known (ctor : string) : bool := existsb (fun e => String.eqb (fst e) ctor) gen_access.",
-               "Definition cases : list (nat * string * list cshape * bool) := ["]
-        src.append(";\n".join('(%d%%nat, "%s", [%s], %s)' % (i, k[0], "; ".join(SHAPES[k[1]]), coq_bool(observed[k])) for i, k in enumerate(keys)))
+               "Definition cases : list (nat * string * list cshape * list nclass * list bool * bool) := ["]
+        src.append(";\n".join('(%d%%nat, "%s", [%s], [%s], [%s], %s)' % (
+            i, k[0], "; ".join(SHAPES[k[1]]), "; ".join(CLASSES.get(k[1], ["NcComment"])), "; ".join(READABLE[k[2]]), coq_bool(observed[k])) for i, k in enumerate(keys)))
         src.append("].")
-        src.append("Definition RES := Eval vm_compute in map (fun x => fst (fst (fst x))) (filter (fun x => match x with (i, ctor, sh, obs) => "
-                   "negb (known ctor) || negb (Bool.eqb (crashes ctor sh) obs) end) cases).")
+        src.append("Definition RES := Eval vm_compute in map (fun x => match x with (i, _, _, _, _, _) => i end) (filter (fun x => match x with (i, ctor, sh, cl, rd, obs) => "
+                   "negb (known ctor) || negb (Bool.eqb (crashes ctor sh cl rd) obs) end) cases).")
         src.append("Print RES.")
         ok, out = c.coq_eval("Cases_%d.v" % state["n"], "\n".join(src), timeout=600)
         if not ok:
@@ -144,8 +159,8 @@ def run(c):
             return
         for x in re.findall(r"\d+", m.group(1)):
             k = keys[int(x)]
-            c.fail("corr", "the model's crash prediction for %s on capture shape %s differs from the engine" % k,
-                   input={"ctor": k[0], "shape": k[1]}, observed={"engine_panicked": observed[k]})
+            c.fail("corr", "the model's crash prediction for %s on capture shape %s differs from the engine" % k[:2],
+                   input={"ctor": k[0], "shape": k[1], "file": k[2] or "on disk"}, observed={"engine_panicked": observed[k]})
         c.coverage.setdefault("model_vs_impl_cases", 0)
         c.coverage["model_vs_impl_cases"] += len(keys)
         for r in [r for r in runs if r.get("reports")][5:8]:
